@@ -37,6 +37,7 @@ var c03ServerPeers = []c03Peer{
 	{"select-zero", peerDev{AuthAnswer: "YES", Select: "zero"}},
 	{"denied-after-auth", peerDev{Denied: true}},
 	{"postauth-in-clear", peerDev{PostAuthClear: true}},
+	{"postauth-with-secret-marker", peerDev{PostAuthSecret: true}},
 }
 
 var c03ClientPeers = []c03Peer{
